@@ -251,3 +251,20 @@ SMALL_TYPE_SYSTEM = [
     "directive @d on FIELD",
     '"desc" directive @d(a: Int = 1 @e, "ad" b: [T!]) on FIELD | QUERY',
 ]
+
+
+# documents parsed WITHOUT locations: structurally equal siblings are `==` (only identity tells them apart)
+NOLOC_EXECUTABLE = [
+    "{ id name id friends { id } id }",
+    "{ a a a }",
+    "{ a(x: 1, y: 1, x: 1) @d @d(p: [1, 1, 2, 1]) @d }",
+    "{ a(o: {k: 1, l: 1, k: 1}, p: [[1], [1], [1]]) ...F ...F ... { a } ... { a } ... on T { a } ... on T { a } }",
+    "query Q($v: Int, $v: Int = 1, $v: Int = 1) @d @d { a } query Q($v: Int, $v: Int = 1, $v: Int = 1) @d @d { a }",
+    "fragment F on T { a a } fragment F on T { a a } { b } { b }",
+]
+NOLOC_TYPE_SYSTEM = [
+    "type T implements I & I @d @d { f: Int f: Int g(x: Int = 1, x: Int = 1): Int g(x: Int = 1, x: Int = 1): Int }",
+    "scalar S scalar S enum E { A A @d @d } enum E { A A @d @d } union U = A | A | B | A",
+    "input I { a: Int = [1, 1] a: Int = [1, 1] } interface J { f: Int f: Int } directive @d(a: Int, a: Int) on FIELD | FIELD",
+    "schema @d @d { query: Q query: Q } extend schema @d @d extend type T @x @x extend type T @x @x",
+]
